@@ -174,7 +174,8 @@ class Tracker:
         n_ops = n * stages
         msum = float(abs(a[:, inv.M]).sum())
         # --- linear momentum
-        tolP = K_P * EPS * n_ops * float(max(i0["Psc"], i1["Psc"])) + n * stages * msum * self.grid_v
+        Psc = max(float(i0["Psc"]), float(i1["Psc"]), getattr(self, "Psc_path", 0.0))
+        tolP = K_P * EPS * n_ops * Psc + n * stages * msum * self.grid_v
         errP = vmax(i1["P"] - i0["P"])
         ctx.stat_max("P_over_tol[%s]" % fam, errP / tolP if tolP > 0 else 0.0)
         if errP > tolP:
@@ -182,7 +183,7 @@ class Tracker:
                             % (fam, errP, tolP, n, where), P0=[float(c) for c in i0["P"]], P1=[float(c) for c in i1["P"]])
         # --- uniform motion of the centre of mass:  sum m x (t) = sum m x (0) + P0 (t - t0)
         # (P0 t is exact only up to the rounding of the initial velocities: K eps |t| sum|mv| covers it)
-        scX = float(max(i0["MXsc"], i1["MXsc"])) + abs(float(el)) * float(i0["Psc"])
+        scX = float(max(i0["MXsc"], i1["MXsc"])) + abs(float(el)) * Psc
         tolX = K_X * EPS * n_ops * scX + n * stages * msum * (self.grid_x + abs(float(el)) * self.grid_v)
         errX = vmax(i1["MX"] - (i0["MX"] + i0["P"] * el))
         ctx.stat_max("X_over_tol[%s]" % fam, errX / tolX if tolX > 0 else 0.0)
@@ -492,6 +493,11 @@ def run_merge(case, ctx):
     sysd = case["system"]
     cfg = case["cfg"]
     fam = cfg["family"]
+    if sysd.get("close") and fam == "ias15" and cfg["fixed_step"]:
+        # a 15th-order polynomial fitted through an unresolved 1/r^2 spike has coefficients orders of magnitude above
+        # the accelerations, and their rounding (not any asymmetry) then dominates sum m v: ill-conditioned, skipped
+        ctx.skip("fixed-step IAS15 through a close encounter")
+        return
     parts = boosted(sysd["particles"], usable_boost(case, ctx), sysd["P_min"])
 
     def build():
@@ -570,6 +576,18 @@ def run_merge(case, ctx):
                                 "initial masses %r (%s)" % (mergers, k, m1, m0, fam))
         Nprev = len(a)
     tr.mergers = mergers
+    # condition number of the momentum sum along the path: every kick m_i dv_i is rounded relative to its own size,
+    # and in an under-resolved close encounter (fixed step through a 1/r^2 spike) the kicks exceed sum|m v| of the
+    # end states by orders of magnitude; the scale is the largest sum|m v| seen at any boundary plus the mean
+    # kick sum_i m_i |dv_i| per step
+    import numpy as np
+    psc_max = 0.0
+    kicks = 0.0
+    for k, a in enumerate(log):
+        psc_max = max(psc_max, float((abs(a[:, inv.M]) * np.sqrt((a[:, 3:6] ** 2).sum(axis=1))).sum()))
+        if k and len(log[k - 1]) == len(a):
+            kicks += float((abs(a[:, inv.M]) * np.sqrt(((a[:, 3:6] - log[k - 1][:, 3:6]) ** 2).sum(axis=1))).sum())
+    tr.Psc_path = psc_max + kicks / max(1, len(log) - 1)
     # momentum / centre of mass at every boundary would cost a longdouble pass per step: check the boundaries
     # around every change of N, a spread of others, and the end state
     sim.synchronize()
@@ -664,8 +682,8 @@ def run_diag(case, ctx):
 
 def subs(tier):
     out = [
-        Sub("conserve", run_conserve, strategy=conserve_case, quick=2000, thorough=12000, shards_quick=8, shards_thorough=16),
-        Sub("merge", run_merge, strategy=merge_case, quick=600, thorough=15000, shards_quick=4, shards_thorough=16),
-        Sub("diagnostics", run_diag, strategy=diag_case, quick=3000, thorough=60000, shards_quick=2, shards_thorough=8),
+        Sub("conserve", run_conserve, strategy=conserve_case, quick=2000, thorough=40000, shards_quick=8, shards_thorough=16),
+        Sub("merge", run_merge, strategy=merge_case, quick=600, thorough=40000, shards_quick=4, shards_thorough=16),
+        Sub("diagnostics", run_diag, strategy=diag_case, quick=3000, thorough=200000, shards_quick=2, shards_thorough=8),
     ]
     return out
